@@ -27,6 +27,14 @@ pub assume_specification<'a, T: Clone>[ <Vec<T> as core::convert::From<&'a [T]>>
     ensures r@.len() == s@.len(), forall|i: int| 0 <= i < s@.len() ==> cloned::<T>(#[trigger] s@[i], r@[i]), vstd::std_specs::vec::vec_clone_trigger(r, r),
 ;
 
+// std items a maintainer is likely to reach for in this code base (kept so that such an edit stays decidable)
+pub assume_specification<T>[ core::mem::replace::<T> ](dest: &mut T, src: T) -> (r: T)
+    ensures *final(dest) == src, r == *old(dest),
+;
+pub assume_specification<T: core::default::Default>[ core::mem::take::<T> ](dest: &mut T) -> (r: T)
+    ensures r == *old(dest), call_ensures(T::default, (), *final(dest)),
+;
+
 // ------------------------------------------------------------------------------------------
 // results with the remaining input stripped
 
